@@ -11,8 +11,8 @@ package mcrt
 import (
 	"fmt"
 	"os"
-	"sort"
 	"runtime/debug"
+	"sort"
 	"strings"
 	"time"
 )
@@ -37,15 +37,15 @@ const (
 var opNames = [...]string{"start", "send", "recv", "close", "lock", "rlock", "wgwait", "sleep", "yield", "resume", "select", "condwait"}
 
 type op struct {
-	kind  opKind
-	ch    *chanState
-	val   interface{}
-	vh    uint64 // hash of val, computed once
-	mu    *muState
-	wg    *wgState
-	wake  time.Time
-	label string
-	rw    bool // the lock operation is on an RWMutex
+	kind   opKind
+	ch     *chanState
+	val    interface{}
+	vh     uint64 // hash of val, computed once
+	mu     *muState
+	wg     *wgState
+	wake   time.Time
+	label  string
+	rw     bool // the lock operation is on an RWMutex
 	cond   *condState
 	ticket int
 	// select
@@ -71,7 +71,7 @@ type thread struct {
 	resH     uint64
 	ok       bool
 	selIdx   int
-	low      bool // scheduled only when no normal thread can run, in the default order
+	low      bool   // scheduled only when no normal thread can run, in the default order
 	inject   string // runtime panic to raise inside the thread when it resumes
 	parkSeq  int
 	spin     int // loop iterations since the last scheduling point (see Spin)
